@@ -32,6 +32,24 @@ extern "C" void harness() {
   }
   __verif_cover("end");
 }
+#elif defined(H17L)
+// H17L: a three-pin net with concrete pin positions (0, 4, 16) and a SYMBOLIC real-valued weight under the LightStar and
+// bound-to-bound models: the total pull on the interior cell (the diagonal of its row) is w/2 * (1/4 + 1/12) = w/6, i.e.
+// proportional to the weight (linear floating-point error model, relative tolerance 1e-4).
+extern "C" void harness() {
+  float w = __verif_nondet_float(0.0078125f, 64.0f);
+  int model = __verif_choice(2);
+  NetModel m(3);
+  m.addNet({0, 1, 2}, {0.0f, 0.0f, 0.0f}, w);
+  m.check();
+  std::vector<float> pl = {0.0f, 4.0f, 16.0f};
+  MatrixCreator mc = model == 0 ? MatrixCreator::createLightStar(m, pl, 1.0f) : MatrixCreator::createB2B(m, pl, 1.0f);
+  const std::vector<Eigen::Triplet<float> >& t = mc.mat();
+  float diag = 0.0f;
+  for (size_t k = 0; k < t.size(); ++k) if (t[k].row() == 1 && t[k].col() == 1) diag += t[k].value();
+  VASSERT(diag >= w * 0.16665f && diag <= w * 0.16668f, "the pull of a net on an interior cell is proportional to its real-valued weight (w/6 here)");
+  __verif_cover("end");
+}
 #elif defined(H17C)
 // H17C: the constant regulariser of finalize() (an UNSCALED 1e-8 on the diagonal) is added only to rows that received no diagonal
 // contribution: otherwise scaling all weights and penalties by a common factor would change the system other than by that
